@@ -294,7 +294,6 @@ for (rule, _) in it: &self.rules
             _ => unreachable!(),
         };
 
-        if self.exit_code == FAILURE_STATUS_CODE && records.len() > 1 { return Ok(0); }
         Ok(self.exit_code)
     }
 }
